@@ -205,6 +205,14 @@ def run(rep, tier, seed):
                f'<svg><text id="s" xy="2 3"{extra}>{text}</text></svg>')
         lcases.append({"k": f"c19lt-{j}", "xml": xml, "case": dict(c, carrier="text", anchor=[8, 12]), "key": xml})
 
+    # ... and placed with a length on one axis only (no box can be computed): the axis that is given keeps its
+    # length, the other is what SVG takes it to be, 0
+    for j, (ax, val) in enumerate([(a, v) for a in ("x", "y") for v in ("10%", "2em", "1.5cm", "-3mm")]):
+        for n in (1, 2, 3):
+            text = "\\n".join(f"L{i + 1}" for i in range(n))
+            xml = f'<svg><rect wh="4"/><text id="s" {ax}="{val}" text="{text}"/></svg>'
+            lcases.append({"k": f"c19lu-{j}-{n}", "xml": xml, "case": {"carrier": "text-unit", "axis": ax, "value": val, "n": n}, "key": xml})
+
     SVGDX_TEXT = {"text", "text-lsp", "text-style", "text-loc", "text-offset", "text-dx", "text-dy", "text-dxy", "xy", "cxy"}
 
     def lcheck(c, resp):
@@ -219,6 +227,16 @@ def run(rep, tier, seed):
         left = sorted(k for k in t.attrs if k in SVGDX_TEXT)
         if left:
             return ("textlines:text-residue", f"text-specific attributes left on the output <text>: {left}")
+        if cs.get("carrier") == "text-unit":
+            other = "y" if cs["axis"] == "x" else "x"
+            if t.attrs.get(cs["axis"]) != cs["value"]:
+                return ("textlines:unit-axis", f"{cs['axis']}={cs['value']!r} became {t.attrs.get(cs['axis'])!r}")
+            if vlib.fnum(t.attrs.get(other, "0")) != 0:
+                return ("textlines:unit-other-axis", f"{other} was not given and is {t.attrs.get(other)!r} in the output, not 0")
+            lines = [sp.text_content() for sp in t.children if sp.kind == "el" and sp.name == "tspan"] if cs["n"] > 1 else [t.text_content()]
+            if lines != [f"L{i + 1}" for i in range(cs["n"])]:
+                return ("textlines:lines", f"lines {lines}")
+            return None
         if cs.get("carrier") == "text":
             spans = [e for e in t.children if e.kind == "el" and e.name == "tspan"]
             if [sp.text_content() for sp in spans] != [f"L{i + 1}" for i in range(cs["n"])]:
